@@ -3,7 +3,7 @@
     U    = (units <id> <name> IMP (unit <ref> <pfx> <id> <exp> <mult>)*)
     IMP  = (imp <srcid> <url> <ref>) | (noimp <ref>)
     V    = (var <id> <name> <initial> <iface> UO)        UO = (nounits) | U
-    R    = (reset <id> <order> <rv> <rvid> <tv> <tvid> VO VO)   (variable, test variable)   VO = (novar) | V
+    R    = (reset <id> <order|none> <rv> <rvid> <tv> <tvid> VO VO)   (variable, test variable)   VO = (novar) | (own <k>) | V
     C    = (comp <id> <name> <encid> <math> IMP (vars V*) (resets R*) (kids C*))
     M    = (model <id> <name> <encid> (units U*) (comps C*))
   strings are hex atoms `#6162` (`#` = empty).
@@ -41,20 +41,26 @@ def parseVar : Sexp → Option Variable
   | .list [.atom "var", i, n, iv, ifc, u] => do pure ⟨← str i, ← str n, ← str iv, ← str ifc, ← parseUnitsOpt u⟩
   | _ => none
 
-def parseVarOpt : Sexp → Option (Option Variable)
+/-- a reset refers to no variable, to the k-th variable of its own component `(own k)`, or to a free-standing one -/
+def parseVarOpt (vars : List Variable) : Sexp → Option (Option Variable)
   | .list [.atom "novar"] => some none
+  | .list [.atom "own", .atom k] => do let k ← k.toNat?; pure vars[k]?
   | s => (parseVar s).map some
 
-def parseReset : Sexp → Option Reset
+/-- order `none` = not set (value 0, which is what `Reset::order()` returns) -/
+def parseOrder (o : String) : Option Int := if o = "none" then some 0 else o.toInt?
+
+def parseReset (vars : List Variable) : Sexp → Option Reset
   | .list [.atom "reset", i, .atom o, rv, rvi, tv, tvi, v, t] => do
-    pure ⟨← str i, ← o.toInt?, ← str rv, ← str rvi, ← str tv, ← str tvi, ← parseVarOpt v, ← parseVarOpt t⟩
+    pure ⟨← str i, ← parseOrder o, ← str rv, ← str rvi, ← str tv, ← str tvi, ← parseVarOpt vars v, ← parseVarOpt vars t⟩
   | _ => none
 
 /-- component trees: explicit fuel (documents are finite; the reader never loops) -/
 def parseComp : Nat → Sexp → Option Component
   | 0, _ => none
   | n+1, .list [.atom "comp", i, nm, e, m, imp, .list (.atom "vars" :: vs), .list (.atom "resets" :: rs), .list (.atom "kids" :: ks)] => do
-    pure (.mk (← str i) (← str nm) (← str e) (← str m) (← parseImp imp) (← vs.mapM parseVar) (← rs.mapM parseReset)
+    let vars ← vs.mapM parseVar
+    pure (.mk (← str i) (← str nm) (← str e) (← str m) (← parseImp imp) vars (← rs.mapM (parseReset vars))
       (← ks.mapM (parseComp n)))
   | _, _ => none
 
